@@ -259,6 +259,7 @@ class PathResult:
         self.facts = facts
         self.upper = dict(interp.upper)
         self.bindings = dict(interp.bindings)
+        self.conds = list(interp.conds)
         self.calls = list(interp.calls_log)
         self.objects = list(interp.objects)
         self.args = interp.cur_args
@@ -357,6 +358,7 @@ class Interp:
             self.calls_log = []
             self.objects = []
             self.bindings = {}
+            self.conds = []
             self.depth = 0
             args, kwargs = make_args()
             self.cur_args = (args, kwargs)
@@ -436,6 +438,7 @@ class Interp:
         i = self.choose(2, v.text)
         d = i == 0
         self.trace[-1] = (v.text, d, i, 2)
+        self.conds.append((v, d))
         self.learn(v, d)
         return d
 
@@ -610,6 +613,36 @@ class Interp:
             raise _Continue()
         elif isinstance(st, (ast.FunctionDef, ast.ClassDef)):
             env[st.name] = Unknown(f"<local def {st.name}>")
+        elif isinstance(st, ast.ImportFrom):
+            for a in st.names:
+                local = a.asname or a.name
+                if local in self.externs or local in self.stubs and False:
+                    env[local] = self.externs[local]
+                    continue
+                saved = mod.imports.get(local)
+                mod.imports[local] = ("from", st.level, st.module, a.name)
+                try:
+                    v = None
+                    r = self.repo.resolve_import(mod, local)
+                    if r:
+                        m2 = self.repo.mod(r[0])
+                        if r[1] is None:
+                            v = ("module", m2)
+                        elif r[1] in m2.functions:
+                            v = ("func", m2, m2.functions[r[1]])
+                        elif r[1] in m2.classes:
+                            v = ("class", m2, m2.classes[r[1]])
+                        elif r[1] in m2.assigns:
+                            v = self.lookup(r[1], {}, m2)
+                    env[local] = v if v is not None else ("extfunc", f"{st.module}.{a.name}")
+                finally:
+                    if saved is None:
+                        mod.imports.pop(local, None)
+                    else:
+                        mod.imports[local] = saved
+        elif isinstance(st, ast.Import):
+            for a in st.names:
+                env[(a.asname or a.name).split(".")[0]] = ("extmodule", a.name)
         else:
             raise AnalysisError(f"absint: unsupported statement {type(st).__name__} at {mod.rel}:{st.lineno}")
 
@@ -1151,6 +1184,10 @@ class Interp:
                 if isinstance(w, tuple) and w and w[0] == "extfunc" and w[1].split(".")[-1] in ("Enum", "IntEnum"):
                     return False
             return Unknown(f"isinstance({_text(args[0])}, {norm(e.args[1])})")
+        if name == "dict" and not args:
+            return dict(kwargs)
+        if name == "set" and not args:
+            return AList([], "set")
         if name in ("list", "tuple"):
             v = args[0] if args else ()
             if isinstance(v, AList):
@@ -1168,6 +1205,21 @@ class Interp:
             seqs = [a.items if isinstance(a, AList) else a for a in args]
             if all(isinstance(s, (list, tuple, range, str)) for s in seqs):
                 return list(zip(*seqs))
+        if name in ("any", "all") and len(args) == 1:
+            v = args[0]
+            seq = v.items if isinstance(v, AList) else v
+            if isinstance(seq, (list, tuple)):
+                unk = [x for x in seq if isinstance(x, (Unknown, BV))]
+                conc = [x for x in seq if not isinstance(x, (Unknown, BV))]
+                truth = [bool(x.items) if isinstance(x, AList) else bool(x) for x in conc]
+                if name == "any" and any(truth):
+                    return True
+                if name == "all" and not all(truth):
+                    return False
+                if not unk:
+                    return name == "all"
+                return Cond(f"{name}({', '.join(_text(x) for x in unk)})", "and" if name == "all" else "or", [x for x in unk if isinstance(x, Cond)])
+            return Unknown(f"{name}({_text(v)})")
         if name == "print":
             return None
         return Unknown(f"{name}({', '.join(_text(a) for a in args)})")
@@ -1253,7 +1305,7 @@ Interp.getattr = _getattr
 _NOFOLD = object()
 _BUILTINS = {
     "len", "range", "int", "float", "abs", "max", "min", "round", "bool", "str", "bytes", "bytearray", "isinstance",
-    "list", "tuple", "enumerate", "zip", "print", "ord", "chr", "sum", "pow", "divmod",
+    "list", "tuple", "enumerate", "zip", "print", "ord", "chr", "sum", "pow", "divmod", "any", "all", "dict", "set",
 }
 _CMP = {ast.Lt: "<", ast.LtE: "<=", ast.Gt: ">", ast.GtE: ">=", ast.Eq: "==", ast.NotEq: "!=", ast.Is: "is",
         ast.IsNot: "is not", ast.In: "in", ast.NotIn: "not in"}
